@@ -1,6 +1,6 @@
 #include "slu_mt_ddefs.h"
 /* ghosts: pre-state copies; g_c an arbitrary column, g_k an arbitrary position of lsub */
-int_t g_lsub0[LC], g_xprune0[CAP], g_ispruned0[CAP], g_kmin[CAP], g_c, g_k;
+int_t g_lsub0[LC], g_xprune0[CAP], g_ispruned0[CAP], g_kmin[CAP], g_seg[CAP], g_elig[CAP], g_c, g_k;
 /* inputs (capacities as allocated by the library for n = CAP columns, nzlmax = LC, m = M rows) */
 int_t in_jcol, in_pivrow, in_nseg, in_segrep[CAP], in_repfnz[CAP], in_xprune[CAP], in_ispruned[CAP], in_perm_r[M];
 int_t in_xsup[CAP+1], in_xsup_end[CAP], in_supno[CAP+1], in_xlsub[CAP+1], in_xlsub_end[CAP], in_lsub[LC];
